@@ -1,6 +1,214 @@
 package props
 
-// worker subprocess support is filled in by worker.go (C04, C07, C16)
+// Worker subprocess: the test binary re-executes itself with VERIF_WORKER=1 and
+// serves jobs (one JSON line in, one JSON line out) under a bounded stack, so
+// that a stack overflow, a fatal runtime error or a hang of the code under test
+// is an observable, attributable outcome of one job instead of the death of the
+// whole check (C04, C07, C16).
 
-func workerMain()  {}
-func stopWorkers() {}
+import (
+	"bufio"
+	"encoding/json"
+	"fmt"
+	"io"
+	"os"
+	"os/exec"
+	"runtime/debug"
+	"strconv"
+	"sync"
+	"time"
+)
+
+type wjob struct {
+	Kind    string          `json:"kind"`
+	Payload json.RawMessage `json:"payload"`
+}
+
+type wresult struct {
+	Panic string          `json:"panic,omitempty"`
+	Data  json.RawMessage `json:"data,omitempty"`
+}
+
+// jobHandlers are registered by the property files (init functions).
+var jobHandlers = map[string]func(json.RawMessage) (any, error){}
+
+func workerMain() {
+	mb, _ := strconv.Atoi(os.Getenv("VERIF_MAXSTACK_MB"))
+	if mb <= 0 {
+		mb = 32
+	}
+	debug.SetMaxStack(mb << 20)
+	in := bufio.NewReaderSize(os.Stdin, 1<<20)
+	out := bufio.NewWriter(os.Stdout)
+	for {
+		line, err := in.ReadBytes('\n')
+		if len(line) > 0 {
+			var j wjob
+			var res wresult
+			if e := json.Unmarshal(line, &j); e != nil {
+				res.Panic = "harness: bad job: " + e.Error()
+			} else if h, ok := jobHandlers[j.Kind]; !ok {
+				res.Panic = "harness: unknown job kind " + j.Kind
+			} else {
+				func() {
+					defer func() {
+						if r := recover(); r != nil {
+							st := string(debug.Stack())
+							if len(st) > 2500 {
+								st = st[:2500]
+							}
+							res.Panic = fmt.Sprintf("%v\n%s", r, st)
+						}
+					}()
+					v, e := h(j.Payload)
+					if e != nil {
+						res.Panic = "harness: " + e.Error()
+						return
+					}
+					res.Data, _ = json.Marshal(v)
+				}()
+			}
+			b, _ := json.Marshal(res)
+			out.Write(b)
+			out.WriteByte('\n')
+			out.Flush()
+		}
+		if err != nil {
+			return
+		}
+	}
+}
+
+type tailBuffer struct {
+	mu  sync.Mutex
+	buf []byte
+}
+
+func (t *tailBuffer) Write(p []byte) (int, error) {
+	t.mu.Lock()
+	defer t.mu.Unlock()
+	t.buf = append(t.buf, p...)
+	if len(t.buf) > 16384 {
+		// keep head (the fatal error line comes first) and tail
+		t.buf = append(t.buf[:6000:6000], t.buf[len(t.buf)-6000:]...)
+	}
+	return len(p), nil
+}
+
+func (t *tailBuffer) String() string {
+	t.mu.Lock()
+	defer t.mu.Unlock()
+	return string(t.buf)
+}
+
+type worker struct {
+	cmd    *exec.Cmd
+	in     io.WriteCloser
+	out    *bufio.Reader
+	stderr *tailBuffer
+	lines  chan []byte
+}
+
+var (
+	workersMu sync.Mutex
+	workers   = map[int]*worker{}
+)
+
+func startWorker(stackMB int) (*worker, error) {
+	cmd := exec.Command(os.Args[0], "-test.run", "^$")
+	cmd.Env = append(os.Environ(), "VERIF_WORKER=1", "VERIF_MAXSTACK_MB="+strconv.Itoa(stackMB))
+	in, err := cmd.StdinPipe()
+	if err != nil {
+		return nil, err
+	}
+	outp, err := cmd.StdoutPipe()
+	if err != nil {
+		return nil, err
+	}
+	w := &worker{cmd: cmd, in: in, out: bufio.NewReaderSize(outp, 1<<20), stderr: &tailBuffer{}, lines: make(chan []byte, 1)}
+	cmd.Stderr = w.stderr
+	if err := cmd.Start(); err != nil {
+		return nil, err
+	}
+	go func() {
+		for {
+			line, err := w.out.ReadBytes('\n')
+			if len(line) > 0 && line[len(line)-1] == '\n' {
+				w.lines <- line
+			}
+			if err != nil {
+				close(w.lines)
+				return
+			}
+		}
+	}()
+	return w, nil
+}
+
+func (w *worker) kill() {
+	_ = w.cmd.Process.Kill()
+	_, _ = w.cmd.Process.Wait()
+}
+
+type callOutcome struct {
+	Res    wresult
+	Died   bool   // the worker process died while running the job
+	Hung   bool   // no answer within the watchdog
+	Stderr string // what the dying worker printed (fatal error: stack overflow ...)
+}
+
+// callWorker runs one job in the worker with the given stack bound.
+func callWorker(stackMB int, kind string, payload any, timeout time.Duration) callOutcome {
+	workersMu.Lock()
+	defer workersMu.Unlock()
+	w := workers[stackMB]
+	if w == nil {
+		var err error
+		w, err = startWorker(stackMB)
+		if err != nil {
+			panic("cannot start worker: " + err.Error())
+		}
+		workers[stackMB] = w
+	}
+	pb, _ := json.Marshal(payload)
+	line, _ := json.Marshal(wjob{Kind: kind, Payload: pb})
+	line = append(line, '\n')
+	if _, err := w.in.Write(line); err != nil {
+		delete(workers, stackMB)
+		w.kill()
+		return callOutcome{Died: true, Stderr: "write to worker failed: " + err.Error() + "\n" + w.stderr.String()}
+	}
+	select {
+	case l, ok := <-w.lines:
+		if !ok {
+			delete(workers, stackMB)
+			_ = w.cmd.Wait()
+			return callOutcome{Died: true, Stderr: w.stderr.String()}
+		}
+		var res wresult
+		if err := json.Unmarshal(l, &res); err != nil {
+			res.Panic = "harness: bad worker answer: " + err.Error()
+		}
+		return callOutcome{Res: res}
+	case <-time.After(timeout):
+		delete(workers, stackMB)
+		w.kill()
+		return callOutcome{Hung: true, Stderr: w.stderr.String()}
+	}
+}
+
+func stopWorkers() {
+	workersMu.Lock()
+	defer workersMu.Unlock()
+	for k, w := range workers {
+		_ = w.in.Close()
+		done := make(chan struct{})
+		go func() { _ = w.cmd.Wait(); close(done) }()
+		select {
+		case <-done:
+		case <-time.After(2 * time.Second):
+			w.kill()
+		}
+		delete(workers, k)
+	}
+}
